@@ -23,6 +23,65 @@ pub fn rt() -> TokioBlockOn {
 
 pub type DynStore = Arc<dyn ReadableWritableListableStorageTraits>;
 
+// ---------------------------------------------------------------- an async store whose futures really suspend
+/// `LatencyStore`: an asynchronous store over a synchronous `MemoryStore` (shared through the `Arc`, so a synchronous
+/// handle can look at the same contents). Every operation awaits a deterministic number (0..=7) of
+/// `tokio::task::yield_now()` points, a pure function of (seed, operation, key/prefix): some before the operation
+/// takes effect (request latency), the rest after it (response latency). A single `get`/`set`/`erase`/`list*` is
+/// atomic (one call on the `MemoryStore`, which locks); only the ORDER in which concurrently issued operations take
+/// effect and complete varies, which is what a remote back end does. `set_partial_values` is the generic
+/// `zarrs_storage::async_store_set_partial_values` read-modify-write over `get`/`set`, exactly as in the
+/// object_store and opendal wrappers (zarrs_object_store/src/lib.rs, zarrs_opendal/src/async.rs).
+pub struct LatencyStore { pub inner: Arc<MemoryStore>, pub seed: u64 }
+impl LatencyStore {
+    pub fn new(seed: u64) -> Self { LatencyStore { inner: Arc::new(MemoryStore::new()), seed } }
+    /// (yields before, yields after) for operation `op` on `name`
+    pub fn latency(&self, op: u8, name: &str) -> (u32, u32) {
+        // FNV-1a over (seed, op, name), finished with a splitmix round
+        let mut h: u64 = 0xcbf29ce484222325;
+        for b in self.seed.to_le_bytes().iter().chain([op].iter()).chain(name.as_bytes().iter()) { h = (h ^ *b as u64).wrapping_mul(0x100000001b3); }
+        h = (h ^ (h >> 30)).wrapping_mul(0xBF58476D1CE4E5B9); h = (h ^ (h >> 27)).wrapping_mul(0x94D049BB133111EB); h ^= h >> 31;
+        let total = (h % 8) as u32;
+        let pre = ((h >> 8) % (total as u64 + 1)) as u32;
+        (pre, total - pre)
+    }
+}
+async fn pause(n: u32) { for _ in 0..n { tokio::task::yield_now().await; } }
+use zarrs::storage::{AsyncBytes, StorageError, StoreKeys, StoreKeysPrefixes};
+#[async_trait::async_trait]
+impl zarrs::storage::AsyncReadableStorageTraits for LatencyStore {
+    async fn get_partial_values_key(&self, key: &StoreKey, byte_ranges: &[ByteRange]) -> Result<Option<Vec<AsyncBytes>>, StorageError> {
+        let (a, b) = self.latency(1, key.as_str()); pause(a).await;
+        let r = self.inner.get_partial_values_key(key, byte_ranges).map(|o| o.map(|v| v.into_iter().map(|b| AsyncBytes::from(b.to_vec())).collect()));
+        pause(b).await; r
+    }
+    async fn size_key(&self, key: &StoreKey) -> Result<Option<u64>, StorageError> {
+        let (a, b) = self.latency(2, key.as_str()); pause(a).await; let r = self.inner.size_key(key); pause(b).await; r
+    }
+}
+#[async_trait::async_trait]
+impl zarrs::storage::AsyncWritableStorageTraits for LatencyStore {
+    async fn set(&self, key: &StoreKey, value: AsyncBytes) -> Result<(), StorageError> {
+        let (a, b) = self.latency(3, key.as_str()); pause(a).await; let r = self.inner.set(key, value.to_vec().into()); pause(b).await; r
+    }
+    async fn set_partial_values(&self, kovs: &[StoreKeyOffsetValue]) -> Result<(), StorageError> {
+        zarrs::storage::async_store_set_partial_values(self, kovs).await
+    }
+    async fn erase(&self, key: &StoreKey) -> Result<(), StorageError> {
+        let (a, b) = self.latency(4, key.as_str()); pause(a).await; let r = self.inner.erase(key); pause(b).await; r
+    }
+    async fn erase_prefix(&self, prefix: &StorePrefix) -> Result<(), StorageError> {
+        let (a, b) = self.latency(5, prefix.as_str()); pause(a).await; let r = self.inner.erase_prefix(prefix); pause(b).await; r
+    }
+}
+#[async_trait::async_trait]
+impl zarrs::storage::AsyncListableStorageTraits for LatencyStore {
+    async fn list(&self) -> Result<StoreKeys, StorageError> { let (a, b) = self.latency(6, ""); pause(a).await; let r = self.inner.list(); pause(b).await; r }
+    async fn list_prefix(&self, prefix: &StorePrefix) -> Result<StoreKeys, StorageError> { let (a, b) = self.latency(7, prefix.as_str()); pause(a).await; let r = self.inner.list_prefix(prefix); pause(b).await; r }
+    async fn list_dir(&self, prefix: &StorePrefix) -> Result<StoreKeysPrefixes, StorageError> { let (a, b) = self.latency(8, prefix.as_str()); pause(a).await; let r = self.inner.list_dir(prefix); pause(b).await; r }
+    async fn size_prefix(&self, prefix: &StorePrefix) -> Result<u64, StorageError> { let (a, b) = self.latency(9, prefix.as_str()); pause(a).await; let r = self.inner.size_prefix(prefix); pause(b).await; r }
+}
+
 pub struct StoreCtx {
     pub kind: String,
     pub store: DynStore,
@@ -90,6 +149,18 @@ pub fn make_store(kind: &str) -> StoreCtx {
         }
         "aod_mem" => {
             let op = opendal::Operator::new(opendal::services::Memory::default()).unwrap().finish();
+            let s = Arc::new(zarrs_opendal::AsyncOpendalStore::new(op));
+            Arc::new(AsyncToSyncStorageAdapter::new(s, rt()))
+        }
+        // the generic read-modify-write `async_store_set_partial_values` over a store whose futures suspend: `lat<seed>`
+        k if k.starts_with("lat") => {
+            let s = Arc::new(LatencyStore::new(k[3..].parse().unwrap_or(0)));
+            Arc::new(AsyncToSyncStorageAdapter::new(s, rt()))
+        }
+        "aod_fs" => {
+            let d = scratch_dir("aodfs");
+            dir = Some(d.clone());
+            let op = opendal::Operator::new(opendal::services::Fs::default().root(&d.to_string_lossy())).unwrap().finish();
             let s = Arc::new(zarrs_opendal::AsyncOpendalStore::new(op));
             Arc::new(AsyncToSyncStorageAdapter::new(s, rt()))
         }
@@ -238,6 +309,31 @@ const DEEP_PREFIXES: [&str; 13] = ["~", "a/", "a/b/", "a/b/c/", "a/b/c/d/", "a/b
 const CLASH_KEYS: [&str; 8] = ["a", "a/b", "a/b/c", "a/b/c/k", "d", "d/e", "a/x", "d/e/f/g"];
 const CLASH_PREFIXES: [&str; 8] = ["~", "a/", "a/b/", "a/b/c/", "d/", "d/e/", "d/e/f/", "a/x/"];
 
+/// one `set_partial_values` call with REPEATED and INTERLEAVED keys (`[A,B,A]`, `[A,A,B,A]`, `[A,B,A,B]`, `[A,B,C,A,B]`, ...):
+/// overlapping offsets, growing lengths, sometimes past the current end (zero extension). The specification is the
+/// sequential application of the entries in order (`Spec.step … (.setPartial kovs)`; `Props/C08.lean: rmw_refines`).
+fn gen_setp_interleaved(rng: &mut Rng, keys: &[&str], nokeys: usize, allow_empty: bool, lens: &mut std::collections::BTreeMap<String, u64>) -> String {
+    const PATTERNS: [&[usize]; 8] = [&[0, 1, 0], &[0, 0, 1, 0], &[0, 1, 0, 1], &[0, 1, 2, 0, 1], &[0, 1, 1, 0], &[0, 1, 0, 2, 0], &[0, 0], &[0, 1, 2, 1, 0, 2]];
+    let pat = PATTERNS[rng.below(PATTERNS.len() as u64) as usize];
+    // distinct keys for the roles A, B, C
+    let mut roles: Vec<&str> = vec![];
+    while roles.len() < 3 { let k = keys[rng.below(nokeys.max(3).min(keys.len()) as u64) as usize]; if !roles.contains(&k) { roles.push(k); } }
+    let mut parts = vec![];
+    let mut growth = 0u64;
+    for &r in pat {
+        let kk = roles[r];
+        let c = *lens.get(kk).unwrap_or(&0);
+        // overlapping the previous entries of this key most of the time; sometimes beyond the end
+        let off = match rng.below(4) { 0 => 0, 1 => c.saturating_sub(rng.range(0, 2)), 2 => c + rng.below(3), _ => rng.below(c + 2) };
+        growth += 1;
+        let n = if allow_empty && rng.chance(1, 12) { 0 } else { rng.range(1, 2 + growth) };
+        let e = lens.entry(kk.to_string()).or_insert(0);
+        *e = (*e).max(off + n);
+        parts.push(format!("{}@{}={}", kk, off, hex(&rng.bytes(n as usize))));
+    }
+    format!("c08 op setp kov={}", parts.join(";"))
+}
+
 pub fn gen_case(rng: &mut Rng, kind: &str, nops: usize, out: &mut Vec<String>) {
     gen_case_univ(rng, kind, nops, &KEYS, &PREFIXES, true, out)
 }
@@ -277,7 +373,7 @@ pub fn gen_case_univ(rng: &mut Rng, kind: &str, nops: usize, keys: &[&str], pref
     out.push(if spec_on { format!("c08 cfg store={}", kind) } else { format!("c08 cfg store={} spec=0", kind) });
     let nokeys = if rng.chance(1, 3) { 3 } else { keys.len() };
     // the third-party back ends are specified for non-empty values / non-empty ranges only
-    let allow_empty = matches!(kind, "memory" | "fs" | "fsdio" | "usagelog" | "perf" | "zip");
+    let allow_empty = matches!(kind, "memory" | "fs" | "fsdio" | "usagelog" | "perf" | "zip") || kind.starts_with("lat");
     let mut lens: std::collections::BTreeMap<String, u64> = Default::default();
     for _ in 0..nops {
         let k = keys[rng.below(nokeys as u64) as usize];
@@ -289,6 +385,7 @@ pub fn gen_case_univ(rng: &mut Rng, kind: &str, nops: usize, keys: &[&str], pref
                 lens.insert(k.to_string(), n);
                 format!("c08 op set k={} v={}", k, hex(&rng.bytes(n as usize)))
             }
+            3 if rng.chance(1, 2) => gen_setp_interleaved(rng, keys, nokeys, allow_empty, &mut lens),
             3 | 4 => {
                 let cnt = rng.range(1, 3);
                 let mut parts = vec![];
@@ -330,6 +427,8 @@ pub fn gen_case_univ(rng: &mut Rng, kind: &str, nops: usize, keys: &[&str], pref
         };
         out.push(line);
     }
+    out.push(gen_setp_interleaved(rng, keys, nokeys.min(4), allow_empty, &mut lens));
+    for k in keys.iter().take(nokeys.min(4)) { out.push(format!("c08 op get k={}", k)); }
     out.push("c08 op list".to_string());
 }
 
@@ -348,6 +447,15 @@ pub fn generate(tier: &str, seed: u64) -> Vec<String> {
         if kind == "fs" || kind == "fsdio" {
             gen_fs_extra(&mut rng, kind, if thorough { 40 } else { 4 }, &mut out);
         }
+    }
+    // the generic asynchronous read-modify-write over a store whose futures suspend (`lat<seed>`: a new latency seed
+    // per case). (`aod_fs`, the asynchronous opendal store over a real file system, exists as a kind but is not
+    // generated: its outcomes depend on the timing of the blocking thread pool.)
+    let mut rng2 = Rng::new(seed ^ 0xC08_A2);
+    for i in 0..(if thorough { 800 } else { 100 }) {
+        let nops = if thorough && rng2.chance(1, 10) { 200 } else { rng2.range(4, 30) as usize };
+        let kind = format!("lat{}", (seed.wrapping_mul(131) + i as u64 * 7 + rng2.below(5)) % 10000);
+        gen_case(&mut rng2, &kind, nops, &mut out);
     }
     out
 }
